@@ -159,6 +159,52 @@ Proof.
       * destruct Hin as [Hin|[]]. discriminate Hin.
   - vm_compute. reflexivity.
 Qed.
+(** the same at ANY level: the stages of a step work on [meta_in prev] ('fragname' := 'atomname' where a node of the previous
+    resolution has one); the hypothesis on the virtual node is stated for that graph *)
+Theorem C11_meta_remove : forall prev kv, NoDup (node_keys prev) -> meta_in (remove_node prev kv) = remove_node (meta_in prev) kv.
+Proof. exact meta_remove. Qed.
+Theorem C11_step_remove_virtual_any : forall legacy aa fd prev car fo' kv, wf_dict fd -> wf_attrs fd -> NoDup (node_keys prev) ->
+  vnode fd kv (meta_in prev) ->
+  resolve_step_full legacy aa fd prev car = Ok fo' ->
+  exists fo, resolve_step_full legacy aa fd (remove_node prev kv) car = Ok fo /\
+    fo_mol fo = fo_mol fo' /\ fo_m2 fo = fo_m2 fo' /\ fo_m5 fo = fo_m5 fo' /\
+    fg_keys (fo_fgs fo) = filter (notkv kv) (fg_keys (fo_fgs fo')) /\
+    (forall g, In (kv, g) (fo_fgs fo') -> node_keys g = []).
+Proof. exact step_remove_virtual_any. Qed.
+Theorem C11_step_insert_virtual_any : forall legacy aa fd prev car fo kv, wf_dict fd -> wf_attrs fd -> NoDup (node_keys prev) ->
+  vnode fd kv (meta_in prev) ->
+  resolve_step_full legacy aa fd (remove_node prev kv) car = Ok fo ->
+  exists fo', resolve_step_full legacy aa fd prev car = Ok fo'.
+Proof. exact step_insert_virtual_any. Qed.
+Theorem C11_step_virtual_iff_any : forall legacy aa fd prev car kv, wf_dict fd -> wf_attrs fd -> NoDup (node_keys prev) ->
+  vnode fd kv (meta_in prev) ->
+  ((exists fo', resolve_step_full legacy aa fd prev car = Ok fo') <->
+   (exists fo, resolve_step_full legacy aa fd (remove_node prev kv) car = Ok fo)).
+Proof. exact step_virtual_iff_any. Qed.
+(** non-vacuity at level 1: nodes of a previous resolution (fragname P) named V, A, B; V = node 0 is virtual for fd_AB *)
+Definition lnode (k : Z) (name : string) (adj : list (Z * Z)) : nrec :=
+  {| nk := k; na := [(S "fragname", VStr (S "P")); (S "atomname", VStr (S name))];
+     nadj := map (fun wo => (fst wo, [(S "order", VInt (snd wo))])) adj |}.
+Definition lvl1_VAB : graph := [lnode 0 "V" [(1, 0)]; lnode 1 "A" [(0, 0); (2, 1)]; lnode 2 "B" [(1, 1)]].
+Example C11_step_remove_virtual_any_nonvacuous :
+  NoDup (node_keys lvl1_VAB) /\ vnode fd_AB 0 (meta_in lvl1_VAB) /\
+  match resolve_step_full true false fd_AB lvl1_VAB None with
+  | Ok fo => match fg_get 0 (fo_fgs fo) with Some [] => true | _ => false end | Err _ => false end = true.
+Proof.
+  split; [vm_compute; repeat constructor; cbn; intuition discriminate|]. split; [|vm_compute; reflexivity].
+  assert (meta_in lvl1_VAB = [ {| nk := 0; na := [(S "fragname", VStr (S "V")); (S "atomname", VStr (S "V"))]; nadj := nadj (lnode 0 "V" [(1, 0)]) |};
+                               {| nk := 1; na := [(S "fragname", VStr (S "A")); (S "atomname", VStr (S "A"))]; nadj := nadj (lnode 1 "A" [(0, 0); (2, 1)]) |};
+                               {| nk := 2; na := [(S "fragname", VStr (S "B")); (S "atomname", VStr (S "B"))]; nadj := nadj (lnode 2 "B" [(1, 1)]) |} ]) as ->
+    by (vm_compute; reflexivity).
+  split.
+  + intros n [<-|[<-|[<-|[]]]] Hk; try discriminate Hk. split.
+    * exists (VStr (S "V")). split; vm_compute; reflexivity.
+    * repeat constructor.
+  + intros n d [<-|[<-|[<-|[]]]] Hin; vm_compute in Hin.
+    * destruct Hin as [Hin|[]]. discriminate Hin.
+    * destruct Hin as [Hin|[Hin|[]]]; [|discriminate Hin]. inversion Hin; subst. reflexivity.
+    * destruct Hin as [Hin|[]]. discriminate Hin.
+Qed.
 
 (** ---- order-0 edges make no bond (corollaries of the proved bond fold of C03) *)
 Theorem C11_no_bond_for_order0 : forall legacy arom a b s acc, edge_loop legacy arom (Z.to_nat 0) a b s acc = Ok (s, acc).
@@ -186,3 +232,7 @@ Print Assumptions C11_bonding_remove.
 Print Assumptions C11_step_remove_virtual.
 Print Assumptions C11_step_insert_virtual.
 Print Assumptions C11_step_virtual_iff.
+Print Assumptions C11_meta_remove.
+Print Assumptions C11_step_remove_virtual_any.
+Print Assumptions C11_step_insert_virtual_any.
+Print Assumptions C11_step_virtual_iff_any.
